@@ -37,6 +37,18 @@ class Dev(object):
 
     def _rec(self, name, *info):
         self.log.append(('dev', name) + info)
+        if name in ('found', 'discovered'):
+            return                       # notes of the harness, not calls
+        self.calls = getattr(self, 'calls', 0) + 1
+        fault = self.env.get('fault')
+        if fault and self.calls == fault[0]:
+            # part 'faults': the n-th driver call fails on the host link /
+            # the user hits Ctrl-C while the driver is busy
+            self.fault_hit = name
+            if fault[1] == 'KeyboardInterrupt':
+                raise KeyboardInterrupt()
+            import errno
+            raise IOError(getattr(errno, fault[1]), "host link: " + fault[1])
 
     def close(self):
         self._rec('close')
@@ -366,6 +378,8 @@ def connect_case(case):
                    presence=case.get('presence', 2))
     if envname == 'reader':
         env = dict(found={}, reader=True, reader_cmds=case.get('cmds', 2))
+    if case.get('fault'):
+        env['fault'] = tuple(case['fault'])
     dev = Dev(env, log)
     p = simpeer.Peer()
     brk = simpeer.Break('disc', case.get('exchanges', 3))
@@ -460,6 +474,27 @@ def connect_case(case):
     if 'ret' not in out:
         return [('connect|no-return|%s' % s.verdict,
                  dict(stuck=s.stuck()))], 'stuck'
+    if case.get('fault'):
+        # documented: connect() returns False when terminated by IOError or
+        # KeyboardInterrupt (whatever phase the activation was in)
+        hit = getattr(dev, 'fault_hit', None)
+        if case.get('probe'):
+            return [], ('probe', getattr(dev, 'calls', 0))
+        if hit is None:
+            return [], ('fault-not-reached',)
+        r = out['ret']
+        ok = r[0] == 'ret' and r[1] is False
+        outcome = ('fault', hit, r[0], contract.ret_class(r[1])
+                   if r[0] == 'ret' else type(r[1]).__name__)
+        if ok:
+            return [], outcome
+        phase = 'after-on-connect' if any(
+            e[0] == 'cb' and e[2] == 'on-connect' for e in log) else 'before'
+        what = ('raises|%s' % sig_exc(r[1])) if r[0] == 'exc' else (
+            'returned-%s' % contract.ret_class(r[1]))
+        return [('fault|%s|%s|%s|%s' % (case['fault'][1], hit, phase, what),
+                 dict(fault=case['fault'], driver_call=hit,
+                      result=repr(r[1]), expected='False'))], outcome
     happened = dict(
         rdwr=len([e for e in log if e[:2] == ('dev', 'found')]),
         card=len([e for e in log if e[:2] == ('dev', 'discovered')]),
@@ -506,6 +541,31 @@ def connect_cases(tier):
     return out
 
 
+FAULT_KINDS = ('EIO', 'ENODEV', 'KeyboardInterrupt')
+
+
+def fault_cases(tier):
+    """Default callbacks (and on-connect false), every option subset x
+    environment; the n-th driver call fails, every n up to the number of
+    driver calls of the fault-free history, every fault kind."""
+    out = []
+    optsets = [('rdwr',), ('llcp',), ('card',), ('rdwr', 'llcp'),
+               ('rdwr', 'card'), ('llcp', 'card'), ('rdwr', 'llcp', 'card')]
+    for opts in optsets:
+        for env in ('none', 'tag', 'peer', 'reader'):
+            cbs = [dict()] + [{(k, 'on-connect'): False} for k in opts]
+            for cbret in cbs:
+                base = dict(opts=opts, env=env, cb=cbret, term=6)
+                if env == 'peer' and 'llcp' in opts:
+                    base.update(role='initiator', stop_after_link=True)
+                _, probe = connect_case(dict(base, fault=(10 ** 9, 'EIO'),
+                                             probe=True))
+                for n in range(1, probe[1] + 1):
+                    for kind in FAULT_KINDS:
+                        out.append(dict(base, fault=(n, kind)))
+    return out
+
+
 # -- driver -------------------------------------------------------------------
 def work(unit):
     kind, chunk = unit
@@ -517,6 +577,9 @@ def work(unit):
         elif kind == 'listen':
             bad, outcome = listen_case(case)
             cls = 'listen|%s' % case[0]
+        elif kind == 'faults':
+            bad, outcome = connect_case(case)
+            cls = 'connect|%s|%s' % ('+'.join(case['opts']), case['env'])
         else:
             bad, outcome = connect_case(case)
             cls = 'connect|%s|%s' % ('+'.join(case['opts']), case['env'])
@@ -548,6 +611,9 @@ def main(tier='quick', seed=0, part=None):
     if part in (None, 'connect'):
         units += [('connect', c) for c in par.chunks(
             par.shuffled(connect_cases(tier), seed), 128)]
+    if part in (None, 'faults'):
+        units += [('faults', c) for c in par.chunks(
+            par.shuffled(fault_cases(tier), seed), 128)]
     for res in par.pmap(work, units):
         run.merge(res)
     n = run.evaluations
@@ -560,7 +626,10 @@ def main(tier='quick', seed=0, part=None):
         "exchange(); connect: option subsets x "
         "environment {none, tag, peer, reader} x callback return values with "
         "at most 2 non-default ones x terminate() turning true at its t-th "
-        "call; each history judged by the reference automaton "
+        "call; faults: for default callbacks (and on-connect false) the n-th "
+        "driver call of the history raises IOError(EIO/ENODEV) or "
+        "KeyboardInterrupt, every n and kind - connect() must return False; "
+        "each history judged by the reference automaton "
         "ref/connect_contract.py; distinct = distinct case" % len(KINDS))
     run.assumptions += [
         "scripted device and scripted LLCP peer (sim/peer.py); default "
